@@ -31,19 +31,42 @@ JPL_PY = os.path.join(core.REPO, "beyond", "env", "jpl.py")
 _ENV = {}
 
 
-def env(pck=True):
+class FakeSegment:
+    """stands for a jplephem segment: position A + B (jd - 2455000) km, velocity B km/day"""
+
+    def __init__(self, center, target, A, B):
+        self.center, self.target, self.A, self.B = center, target, A, B
+        self.start_jd, self.end_jd = 2451536.5, 2459216.5
+
+    def compute_and_differentiate(self, jd):
+        import numpy as np
+        return np.array(self.A) + np.array(self.B) * (jd - 2455000.0), np.array(self.B)
+
+
+class FakeSPK:
+    def __init__(self, segs):
+        self.segments = segs
+        self.pairs = {(s.center, s.target): s for s in segs}
+
+
+def env(pck=True, fake=None):
     """configure beyond for the DE403 test kernel (with or without the PCK constant files) and create the frames.
     beyond.env.jpl keeps process-wide singletons (Bsp, Pck, frame cache, Center class attributes), so a process
-    holds exactly one configuration; the other one is run in a worker process (see `collect`)."""
+    holds exactly one configuration; the other ones run in worker processes (see `collect`).
+    `fake` = [[center, target, A(3), B(3)], ...] installs a synthetic kernel instead of the file (worker only)."""
     if _ENV:
-        if _ENV["pck"] != pck:
+        if _ENV["pck"] != pck or fake is not None:
             raise RuntimeError("one kernel configuration per process")
         return _ENV
     from beyond.config import config
     config.set("eop", "missing_policy", "pass")
     from beyond.env import jpl
     from jplephem.names import target_names
-    config.set("env", "jpl", "files", [BSP] + (PCK_FILES if pck else []))
+    if fake is None:
+        config.set("env", "jpl", "files", [BSP] + (PCK_FILES if pck else []))
+    else:
+        config.set("env", "jpl", "files", ["synthetic.bsp"])
+        jpl.Bsp()._spk = [FakeSPK([FakeSegment(c, t, A, B) for c, t, A, B in fake])]
     jpl.create_frames()
     pairs = list(jpl.Bsp().pairs.keys())           # (center, target) in dict order
     ids = sorted({i for p in pairs for i in p})
@@ -65,28 +88,34 @@ def raw_segments(e, jd):
 
 def chain_direct(pairs, raw, a, b):
     """`a` relative to `b` by chaining the file's segments directly (independent of beyond): metres, metres/second.
+    The segments form an undirected tree whose edge (c, t) carries "t relative to c"; walking from b to a a segment
+    taken from its centre to its target counts +, the other way round -.
     Also returns the magnitude scale of the terms summed (for the tolerance)."""
-    parent = {t: c for c, t in pairs}
-
-    def to_root(i):
-        path = [i]
-        while path[-1] in parent:
-            path.append(parent[path[-1]])
-        return path
-    pa, pb = to_root(a), to_root(b)
-    if pa[-1] != pb[-1]:
+    adj = {}
+    for c, t in pairs:
+        adj.setdefault(c, []).append((t, (c, t), 1.0))
+        adj.setdefault(t, []).append((c, (c, t), -1.0))
+    prev = {b: None}
+    todo = [b]
+    while todo:
+        u = todo.pop(0)
+        for v, key, sg in adj.get(u, []):
+            if v not in prev:
+                prev[v] = (u, key, sg)
+                todo.append(v)
+    if a not in prev:
         return None, None
-    while len(pa) > 1 and len(pb) > 1 and pa[-2] == pb[-2]:
-        pa.pop(); pb.pop()
     vec = [0.0] * 6
     mag = [0.0] * 6
-    for path, sg in ((pa, 1.0), (pb, -1.0)):
-        for child, par in zip(path, path[1:]):
-            r = raw[(par, child)]
-            for k in range(6):
-                x = r[k] * 1000.0 if k < 3 else r[k] / 86400.0 * 1000.0
-                vec[k] += sg * x
-                mag[k] += abs(x)
+    u = a
+    while prev[u] is not None:
+        w, key, sg = prev[u]
+        r = raw[key]
+        for k in range(6):
+            x = r[k] * 1000.0 if k < 3 else r[k] / 86400.0 * 1000.0
+            vec[k] += sg * x
+            mag[k] += abs(x)
+        u = w
     return vec, mag
 
 
@@ -110,6 +139,8 @@ def real_orbit(e, a, b, date):
         return "value-error", None, None
     except KeyError:
         return "key-error", None, None
+    except AttributeError:
+        return "attribute-error", None, None
     if str(res.frame) != e["names"][b]:
         return "wrong-frame", None, None
     return "ok", [float(x) for x in np.asarray(res)], float(orb.date.jd)
@@ -132,10 +163,10 @@ def real_offset(e, a, b, date):
     return "ok", [float(x) for x in np.asarray(res)], float(date.change_scale("TDB").jd)
 
 
-def collect_here(pck, dates, eme=True):
+def collect_here(pck, dates, eme=True, fake=None):
     """all ordered pairs of bodies of the kernel at the given dates, through both public routes.
     returns {"pairs": [...], "ids": [...], "rows": [[kind, a, b, idate, status, vec, jd], ...], "raw": {idate: {c-t: [6]}}}"""
-    e = env(pck)
+    e = env(pck, fake)
     rows = []
     raws = {}
     for k, (day, sec) in enumerate(dates):
@@ -168,15 +199,15 @@ def collect_here(pck, dates, eme=True):
             "span": list(e["span"]), "masses": {str(i): float(e["jpl"].get_frame(e["names"][i]).center.body.mass) if e["names"][i] in e["jpl"]._propagator_cache else None for i in e["ids"]}}
 
 
-def collect(pck, dates, eme=True):
+def collect(pck, dates, eme=True, fake=None):
     """same as collect_here; the configuration that is not the one of this process runs in a worker process"""
-    if not _ENV or _ENV["pck"] == pck:
+    if fake is None and (not _ENV or _ENV["pck"] == pck):
         return collect_here(pck, dates, eme)
     envv = dict(os.environ)
     envv["PYTHONPATH"] = core.VERIF + os.pathsep + core.REPO + os.pathsep + envv.get("PYTHONPATH", "")
     envv["VERIF_REPO"] = core.REPO
     envv.setdefault("PYTHONWARNINGS", "ignore")
-    p = subprocess.run([sys.executable, "-m", "harness.props.C18", "--worker"], input=json.dumps({"pck": pck, "dates": dates, "eme": eme}),
+    p = subprocess.run([sys.executable, "-m", "harness.props.C18", "--worker"], input=json.dumps({"pck": pck, "dates": dates, "eme": eme, "fake": fake}),
                        capture_output=True, text=True, cwd=core.VERIF, env=envv, timeout=3000)
     if p.returncode != 0:
         raise RuntimeError("C18 worker failed: " + p.stderr[-800:])
@@ -192,6 +223,78 @@ def gen_dates(rng, n, span=(2451536.5, 2459216.5)):
         day = rng.randint(int(lo) + 1, int(hi) - 2)
         out.append((day, round(rng.uniform(0, 86400), 6)))
     return out[:n]
+
+
+# ---------------------------------------------------------------- correspondence: real code vs compiled Lean model
+
+NAIF_POOL = [0, 1, 2, 3, 4, 5, 6, 7, 8, 9, 10, 199, 299, 301, 401, 402, 499, 501, 502, 599, 601, 606, 699]
+
+
+def gen_kernel(rng, rooted):
+    """a random tree of segments containing the Earth (399).  rooted: every segment points away from one root
+    (each body is the target of at most one segment, as in the JPL planetary kernels); otherwise every edge
+    gets a random direction.  Random order of the segments in the file."""
+    n = rng.randint(2, 8)
+    ids = [399] + rng.sample(NAIF_POOL, n - 1)
+    rng.shuffle(ids)
+    edges = []
+    for i in range(1, n):
+        par = ids[rng.randrange(0, i)]
+        edges.append((par, ids[i]) if rooted or rng.random() < 0.5 else (ids[i], par))
+    rng.shuffle(edges)
+    fake = []
+    for c, t in edges:
+        A = [rng.uniform(-1, 1) * 10 ** rng.uniform(3, 9) for _ in range(3)]
+        B = [rng.uniform(-1, 1) * 10 ** rng.uniform(2, 6) for _ in range(3)]
+        fake.append([c, t, A, B])
+    return fake
+
+
+def request_line(kind, a, b, pairs, raw):
+    op = "orbit" if kind.startswith("orbit") else "offset"
+    toks = ["spk", op, str(a), str(b), str(len(pairs))] + [f"{c}-{t}" for c, t in pairs]
+    for c, t in pairs:
+        toks += [f2b(x) for x in raw[(c, t)]]
+    return " ".join(toks)
+
+
+def compare_rows(out, r, label, dates, reqs, meta):
+    pairs = [tuple(p) for p in r["pairs"]]
+    for kind, a, b, k, st, vec, jd in r["rows"]:
+        raw = {tuple(int(x) for x in key.split("-")): v for key, v in r["raw"][str(k)]["seg"].items()}
+        reqs.append(request_line(kind, a, b, pairs, raw))
+        meta.append((label, kind, a, b, list(dates[k]), st, vec, pairs))
+        out.count(key=(label, kind, a, b, k), nontrivial=a != b, kind=kind, kernel=label.split("#")[0], status=st)
+
+
+def correspondence(ctx):
+    out = Outcome()
+    rng = ctx.rng
+    reqs, meta = [], []
+    dates = gen_dates(rng, ctx.n(3, 16))
+    for pck in (True, False):
+        compare_rows(out, collect(pck, dates), "de403-pck" if pck else "de403-nopck", dates, reqs, meta)
+    for i in range(ctx.n(8, 60)):
+        rooted = i % 2 == 0
+        fake = gen_kernel(rng, rooted)
+        fd = gen_dates(rng, 3)[2:]
+        compare_rows(out, collect(False, fd, True, fake), ("synthetic-rooted#" if rooted else "synthetic-any#") + str(i), fd, reqs, meta)
+    replies = core.Driver().run(reqs)
+    for (label, kind, a, b, date, st, vec, pairs), rep in zip(meta, replies):
+        inp = {"kernel": label, "pairs": pairs, "op": kind, "a": a, "b": b, "date_mjd_utc": date}
+        toks = rep.split()
+        if toks[0] != "ok" or st != "ok":
+            if toks[0] != st:
+                out.fail("spk-model-status", "the real code and the Lean model end differently", inp, observed=st, expected=rep[:40])
+            continue
+        model = [b2f(x) for x in toks[1:]]
+        scale = max(max(abs(x) for x in vec[:3]), max(abs(x) for x in model[:3]))
+        scalev = max(max(abs(x) for x in vec[3:]), max(abs(x) for x in model[3:]))
+        # the model performs the same float operations in the same order; 1e-12 leaves room for numpy's summation order only
+        if any(not core.close(x, y, rtol=1e-12, atol=1e-12 * (scale if i < 3 else scalev)) for i, (x, y) in enumerate(zip(vec, model))):
+            out.fail("spk-model-value", "vector differs between beyond and the Lean model fed with the same segment values", inp, observed=vec, expected=model)
+        out.sample({"kernel": label, "op": kind, "a": a, "b": b, "impl": vec, "model": model}, limit=2)
+    return out
 
 
 # ---------------------------------------------------------------- oracle on the real API
@@ -353,7 +456,7 @@ def replay(f):
 
 def _worker():
     req = json.loads(sys.stdin.read())
-    res = collect_here(req["pck"], [tuple(d) for d in req["dates"]], req.get("eme", True))
+    res = collect_here(req["pck"], [tuple(d) for d in req["dates"]], req.get("eme", True), req.get("fake"))
     sys.stdout.write("\n@@RESULT@@\n" + json.dumps(res))
 
 
